@@ -121,6 +121,24 @@ def run(case):
             env = {"f": f}
             exec(src, env)
             r = multigrad_dict(env["named"])(*args, **kw)[names[pos]]
+        elif op in ("grad_tuple", "grad_list", "value_and_grad_tuple", "make_vjp_tuple"):
+            # container-valued argnum: x at position pos and a second array y appended as a further positional argument
+            yv = onp.array([0.5, 1.5])
+            cvec = onp.array([3.0, -2.0])
+            f2 = lambda *a, **k: f(*a[:-1], **k) + np.dot(cvec, a[-1])
+            args2 = args + [yv]
+            an = (pos, npos) if op != "grad_list" else [pos, npos]
+            if op in ("grad_tuple", "grad_list"):
+                res = grad(f2, an)(*args2, **kw)
+            elif op == "value_and_grad_tuple":
+                val, res = value_and_grad(f2, an)(*args2, **kw)
+                o["extra_ok"] = bool(not isbox(val) and onp.allclose(val, f2(*args2, **kw)))
+            else:
+                vjp, val = make_vjp(f2, an)(*args2, **kw)
+                res = vjp(1.0)
+            ok_struct = isinstance(res, tuple) and len(res) == 2 and onp.shape(res[0]) == tuple(ins) and onp.shape(res[1]) == (2,)
+            o["extra_ok"] = bool(o["extra_ok"] and ok_struct)
+            r = onp.concatenate([onp.ravel(res[0]), onp.ravel(res[1])]) if ok_struct else onp.array([-99999.0])
         else:
             o["err"] = "no template"
             return o
